@@ -348,6 +348,11 @@ class Interp:
         if t in ("obj", "fn", "cls", "opaque", "exc"):
             if t == "obj" and v.ref.kind == "rec" and v.ref.shape is not None and not v.ref.shape.fields:
                 return z3.BoolVal(False)
+            if t == "obj" and v.ref.kind != "rec":
+                fc = self.cset.lookup_method(v.ref.cls, "__len__")
+                if fc is not None and fc.external and fc.model is not None:
+                    n = self.force(fc.model(self, {"self": v}, [], {}))
+                    return n.t != 0          # a container object is true iff it is not empty
             return z3.BoolVal(True)
         raise Unsupported("truthiness of %r" % v)
 
@@ -1359,6 +1364,10 @@ class Interp:
                 return [self.const(k) for k, _ in c.entries]
         if v.tag == "obj" and v.ref.kind == "rec":
             return [self.const(k) for k in v.ref.shape.fields]
+        if v.tag == "obj":
+            fc = self.cset.lookup_method(v.ref.cls, "__iter__")
+            if fc is not None and fc.external and fc.model is not None:
+                return self.iter_conc(fc.model(self, {"self": v}, [], {}))
         raise Unsupported("iteration over %r" % v)
 
     def dict_items_conc(self, v):
@@ -1784,6 +1793,8 @@ class Interp:
 
     def havoc_loc(self, loc):
         """loc: 'self.a.b' / 'ghost.x' / 'self.config["k"]' ; trailing '.*' havocs all materialised fields"""
+        if loc.startswith("post:"):
+            loc = loc[5:]       # resolved in the state after the earlier locations have been havoced
         if loc.endswith(".**"):
             # every abstract container reachable from the value gets fresh contents (concrete structure is kept)
             self.spec_depth += 1
